@@ -29,7 +29,7 @@ KANI_UNITS = {
             dict(name='window_peek', tags=['C08', 'C12', 'C05', 'C06'], function='Deque::peek_front', what='peek_front / peek_front_ptr hand out exactly the head node and touch nothing: complete for lists of every length'),
             dict(name='window_contains', tags=['C08', 'C12'], function='Deque::contains', what='contains(x) is true for a member of the list (it has a predecessor or is the head) and false for a detached node: complete (a node linked into ANOTHER list also answers true: callers select the list by the region tag first)'),
             dict(name='window_move_front_to_back', tags=['C08', 'C12'], function='Deque::move_front_to_back', what='the head node becomes the tail, an empty or one-node list is untouched (four list shapes): complete for one operation'),
-            dict(name='window_unlink_and_drop', tags=['C08', 'C11'], function='Deque::unlink_and_drop', what='neighbours joined as by unlink and the node released exactly once (CBMC deallocation checks): complete for one operation'),
+            dict(name='window_drop_unlinked', tags=['C08', 'C11'], function='Deque::unlink_and_drop', what='neighbours joined as by unlink and the node released exactly once (CBMC deallocation checks): complete for one operation'),
             dict(name='node_and_list_constructors', tags=['C08', 'C17'], function='DeqNode::new', what='DeqNode::new / next_node_ptr / Deque::new / Deque::region: complete'),
             dict(name='entry_info_new_and_flags', tags=['C10', 'C12', 'C05', 'C06'], function='EntryInfo', what='sequential meaning of the bookkeeping record the Verus units assume (src/common/concurrent/entry_info.rs, atomics): a fresh record is not admitted, dirty, carries the given weight and stamps, no nodes; flag / weight setters store exactly their argument and touch nothing else: complete for one thread'),
             dict(name='entry_info_stamps', tags=['C05', 'C06'], function='EntryInfo', what='set_last_accessed / set_last_modified store exactly their argument in their own slot: complete for one thread'),
